@@ -152,7 +152,8 @@ C04Fails(c) ==
   IN
   IF c.exc = "FailedValidationError" THEN (IF explained THEN {} ELSE {"reported-a-failed-validation"})
   ELSE IF c.exc # "" THEN
-       (IF NoEquivalentGates(orig) THEN {"internal-error-without-equivalent-gates:" \o c.exc} ELSE {})
+       (IF NoEquivalentGates(orig) /\ ~(DevP = "Dev_IncompleteCutFamily" /\ FamilyIncomplete(orig, c.cuts))
+        THEN {"internal-error-without-equivalent-gates:" \o c.exc} ELSE {})
   ELSE FailSet(<<
          <<"result-ill-formed", WFFails(res) = {}>>,
          <<"inputs-differ", res.i = orig.i>>,
